@@ -170,10 +170,23 @@ class SgzCropper(SgzReader):
         il_units = (pad(iline_index_range[1], 4) - iline_index_range[0]) // 4
 
         header = self.regenerate_header(iline_index_range, xline_index_range, zslices_index_range)
-        compressed_bytes = self.loader.read_chunk_range(iline_index_range[0],
-                                                        xline_index_range[0],
-                                                        zslices_index_range[0],
-                                                        il_units, xl_units, z_units)
+        if self.blockshape[0] == 4 and self.blockshape[1] == 4:
+            compressed_bytes = self.loader.read_chunk_range(iline_index_range[0],
+                                                            xline_index_range[0],
+                                                            zslices_index_range[0],
+                                                            il_units, xl_units, z_units)
+        else:
+            # Other layouts store whole blocks in (il, xl, z) block order: copy the blocks the box intersects
+            compressed_bytes = bytearray()
+            for i in range(iline_index_range[0] // self.blockshape[0],
+                           pad(iline_index_range[1], self.blockshape[0]) // self.blockshape[0]):
+                for x in range(xline_index_range[0] // self.blockshape[1],
+                               pad(xline_index_range[1], self.blockshape[1]) // self.blockshape[1]):
+                    for z in range(zslices_index_range[0] // self.blockshape[2],
+                                   pad(zslices_index_range[1], self.blockshape[2]) // self.blockshape[2]):
+                        block_id = (i * self.loader.block_dims[1] + x) * self.loader.block_dims[2] + z
+                        compressed_bytes += self.loader._get_compressed_bytes(block_id * self.block_bytes,
+                                                                              self.block_bytes)
         with open(out_file, 'wb') as new_sgz_file:
             new_sgz_file.write(header)
             new_sgz_file.write(compressed_bytes)
